@@ -143,7 +143,9 @@ Proof.
   { unfold primary_read. subst P16. cbn [app]. rewrite endian_rt.
     change (endian_byte e :: nb (h_type h) :: nb (h_flags h) :: nb 1 :: u32_bytes e (len bd) ++ u32_bytes e (h_serial h) ++ u32_bytes e (len arr))
       with ([endian_byte e; nb (h_type h); nb (h_flags h); nb 1] ++ u32_bytes e (len bd) ++ u32_bytes e (h_serial h) ++ u32_bytes e (len arr)).
-    rewrite (de_primary_at e e (h_type h) (h_flags h) 1 (len bd) (h_serial h) _ Hty Hfl Hv1 (proj1 Hsz2) Hsn).
+    assert (Hfl' : h_flags h < 256) by lia.
+    rewrite (de_primary_at e e (h_type h) (h_flags h) 1 (len bd) (h_serial h) _ Hty Hfl' Hv1 (proj1 Hsz2) Hsn).
+    rewrite (N.mod_small (h_flags h) 8) by lia.
     cbn [bind N.eqb Pos.eqb negb]. unfold data_slice.
     rewrite !len_app, !len_u32. change (len [_;_;_;_]) with 4. cbn [N.add N.ltb N.compare Pos.add Pos.succ Pos.compare Pos.compare_cont bind].
     assert (Hat : at_pos ([endian_byte e; nb (h_type h); nb (h_flags h); nb 1] ++ u32_bytes e (len bd) ++ u32_bytes e (h_serial h) ++ u32_bytes e (len arr)) 12 (u32_bytes e (len arr))).
